@@ -1,2 +1,67 @@
-(* placeholder until the refinement proof lands *)
-From Goom Require Import Model.Stub Model.StubSpec.
+(* C04 -- conditional stubs select results by first matching condition, else default, else panic. *)
+From Coq Require Import List ZArith Bool Arith Lia.
+From Goom Require Import Model.Stub Model.StubSpec Proofs.StubProofs Proofs.StubSpecProofs.
+Import ListNotations.
+Open Scope Z_scope.
+
+(* For every well-formed configuration history (default-first or When-first, any number of When/In clauses with
+   Return/AndReturn sequences) and every sequence of calls (receiver-stripped, variadic-flattened argument lists),
+   goom's id-based When state (shared matcher pointers, cursors) answers exactly as the clause-list specification. *)
+Theorem C04_invoke_refines_spec : forall cf cs, calls (configure cf) cs = spec_calls (spec_of cf) cs.
+Proof. exact invoke_refines_spec. Qed.
+Print Assumptions C04_invoke_refines_spec.
+
+(* ... and the specification is what the property says: *)
+Theorem C04_first_registered_match_wins : forall s pre c post args,
+  ss_clauses s = pre ++ c :: post ->
+  (forall x, In x pre -> cond_match (sc_cond x) args = false) -> cond_match (sc_cond c) args = true ->
+  spec_invoke s args =
+  ({| ss_clauses := pre ++ bump c :: post; ss_default := ss_default s; ss_nout := ss_nout s |}, seq_result c).
+Proof. exact spec_first_match. Qed.
+
+Theorem C04_else_default : forall s d args,
+  (forall x, In x (ss_clauses s) -> cond_match (sc_cond x) args = false) -> ss_default s = Some d ->
+  spec_invoke s args =
+  ({| ss_clauses := ss_clauses s; ss_default := Some (bump d); ss_nout := ss_nout s |}, seq_result d).
+Proof. exact spec_else_default. Qed.
+
+Theorem C04_else_no_suitable_condition_panic : forall s args,
+  (forall x, In x (ss_clauses s) -> cond_match (sc_cond x) args = false) -> ss_default s = None ->
+  ss_nout s <> 0%nat -> spec_invoke s args = (s, ONoSuitable).
+Proof. exact spec_else_panic. Qed.
+
+(* never garbage: a returned value is a configured result of the selected clause *)
+Theorem C04_no_garbage : forall c r,
+  seq_result c = ORet r -> sc_cond c = CEmpty /\ r = EMPTY \/ In r (sc_results c).
+Proof. exact seq_result_configured. Qed.
+
+(* matching semantics of the expressions: plain value by equality, Any always, In by membership;
+   a condition matches iff arities agree and every expression accepts its argument *)
+Theorem C04_expr_semantics : forall a v vs,
+  eval_expr EAny a = true /\ (eval_expr (EEq v) a = true <-> v = a) /\
+  (eval_expr (EIn vs) a = true <-> In a vs).
+Proof.
+  intros a v vs. split; [reflexivity|]. split.
+  - cbn. apply Z.eqb_eq.
+  - cbn. rewrite existsb_exists. split.
+    + intros [x [Hx He]]. apply Z.eqb_eq in He. now subst.
+    + intros H. exists a. split; [exact H | apply Z.eqb_refl].
+Qed.
+
+Theorem C04_condition_all_args : forall es args,
+  eval_all es args = true <-> length es = length args /\ Forall2 (fun e a => eval_expr e a = true) es args.
+Proof.
+  induction es as [|e es IH]; intros [|a args]; cbn [eval_all length]; split; try discriminate; try (intros [H _]; discriminate).
+  - intros _. split; [reflexivity | constructor].
+  - reflexivity.
+  - intros H. apply andb_prop in H as [H1 H2]. apply IH in H2 as [H2 H3]. split; [congruence|]. now constructor.
+  - intros [H1 H2]. inversion H2; subst. apply andb_true_intro. split; [assumption|]. apply IH. split; [congruence | assumption].
+Qed.
+
+Example C04_nonvacuous :
+  let cf := {| cf_nout := 1; cf_default := Some (100, [101]); cf_first_when := None;
+               cf_clauses := [ {| cc_kind := KWhen [EEq 1; EAny]; cc_first := 11; cc_more := [12; 13] |};
+                               {| cc_kind := KIn [[EEq 2; EEq 2]; [EEq 1; EEq 5]]; cc_first := 21; cc_more := [] |} ] |} in
+  calls (configure cf) [[1; 5]; [1; 5]; [2; 2]; [9; 9]; [1; 1]; [9; 9]; [9; 9]] =
+  [ORet 11; ORet 12; ORet 21; ORet 100; ORet 13; ORet 101; ORet 101].
+Proof. vm_compute. reflexivity. Qed.
